@@ -28,7 +28,11 @@ GNext ==
   \/ Close /\ UNCHANGED hist
   \/ \E a \in BOOLEAN : Startup(a) /\ hist' = Append(hist, [appending |-> a, ex |-> <<>>])
   \/ \E k \in Kinds, s \in Shapes, b \in Bodies :
-        Session(k, s, b) /\ hist' = [hist EXCEPT ![Len(hist)].ex = Append(@, [k |-> k, shape |-> s, body |-> b])]
+        Session(k, s, b) /\ hist' = [hist EXCEPT ![Len(hist)].ex = Append(@, [k |-> k, shape |-> s, body |-> b, ovl |-> FALSE])]
+  \/ \E s \in Shapes, b \in Bodies, k2 \in Kinds, s2 \in Shapes, b2 \in Bodies :
+        SessionOvl(s, b, k2, s2, b2)
+        /\ hist' = [hist EXCEPT ![Len(hist)].ex = @ \o <<[k |-> "http", shape |-> s, body |-> b, ovl |-> TRUE],
+                                                        [k |-> k2, shape |-> s2, body |-> b2, ovl |-> FALSE]>>]
 
 GSpec == GInit /\ [][GNext]_gvars
 
